@@ -79,7 +79,16 @@ def steady_state_transport_solver(
 
     # Check cache for footprint mode
     if cache is not None and footprint:
-        cached = cache.get(z, profiles, domain, modes, meas_pt, halo, precision)
+        # every further argument the Green's function depends on
+        cache_extra = (
+            np.asarray(levels).tolist(),
+            tuple(srf_flx.shape),
+            bool(analytic),
+            float(srf_bg_conc),
+        )
+        cached = cache.get(
+            z, profiles, domain, modes, meas_pt, halo, precision, extra=cache_extra
+        )
         if cached is not None:
             return cached
 
@@ -302,7 +311,17 @@ def steady_state_transport_solver(
 
     # Store to cache for footprint mode
     if cache is not None and footprint:
-        cache.put(z, profiles, domain, modes, meas_pt, halo, precision, *result)
+        cache.put(
+            z,
+            profiles,
+            domain,
+            modes,
+            meas_pt,
+            halo,
+            precision,
+            *result,
+            extra=cache_extra,
+        )
 
     return result
 
